@@ -673,21 +673,41 @@ Lemma table_link_untouched fx :
   change_key_tree fx "k" "new" W5_tree = W5_tree /\ tree_refers "k" W5_tree = false.
 Proof. split; reflexivity. Qed.
 
-(* W6: `[x](./k)` in a root note resolves to `k` but is keyed `./k` *)
-Lemma raw_url_untouched fx :
-  from_rel_link_url "./k" "" = "k" /\
-  change_key_inline fx "k" "new" (Link "./k" "" Regular [Str "x"]) = Link "./k" "" Regular [Str "x"].
-Proof. split; vm_compute; reflexivity. Qed.
+(* W6 (F-C08-rawurl, repaired): `[x](./k)` in a root note, and `[x](../k)` in a note of d/, resolve to `k`; the
+   reader keeps them by that key (Arena.to_ginline: `Key::from_rel_link_url`), so change_key retargets them; `[x](k)`
+   typed in d/ names d/k and is left alone.  In the pinned tree the graph held the url as typed: `./k` and `../k`
+   were not retargeted, `k` typed in d/ was *)
+Lemma raw_url_retargeted fx :
+  from_rel_link_url "./k" "" = "k" /\ from_rel_link_url "../k" "d" = "k" /\ from_rel_link_url "k" "d" = "d/k" /\
+  change_key_inline fx "k" "new" (to_ginline "" (Link "./k" "" Regular [Str "x"]))
+  = Link "new" "" Regular (if fx_label fx then [Str "x"] else []) /\
+  change_key_inline fx "k" "new" (to_ginline "d" (Link "../k" "" Regular [Str "x"]))
+  = Link "new" "" Regular (if fx_label fx then [Str "x"] else []) /\
+  change_key_inline fx "k" "new" (to_ginline "d" (Link "k" "" Regular [Str "x"])) = Link "d/k" "" Regular [Str "x"].
+Proof. destruct fx as [[] ? ?]; repeat split; vm_compute; reflexivity. Qed.
 
-(* W7: the note moves into a directory: its inline link `[A](a)` is copied as typed and now
-   resolves to `d/a`; the block reference next to it is re-based to `../a` *)
+(* every inline note link the reader builds is kept by the key it resolves to from the note's directory, so
+   change_key hits it exactly when it resolves to the renamed note *)
+Lemma link_hits_resolved old url dir :
+  is_ref_url url = true ->
+  change_key_inline as_found old "n" (to_ginline dir (Link url "" Regular [])) =
+  if is_ref_url (from_rel_link_url url dir) && String.eqb (from_rel_link_url url dir) old
+  then Link "n" "" Regular [] else Link (from_rel_link_url url dir) "" Regular [].
+Proof.
+  intros E. cbn [to_ginline map]. rewrite E. cbn [change_key_inline]. unfold link_hits, key_name.
+  destruct (is_ref_url (from_rel_link_url url dir) && String.eqb (from_rel_link_url url dir) old); reflexivity.
+Qed.
+
+(* W7 (the inline part of F-C08-newname, repaired): the note moves into a directory: its inline link `[A](a)` is
+   kept by the key `a` and written relative to the new place, `../a`, like the block reference next to it (in the
+   pinned tree it was copied as typed and resolved to `d/a` from there) *)
 Definition W7 : tlib :=
   [TN "a" None (doc_of "a" [sect [Str "A"] []]) [];
    TN "k" None (doc_of "k" [leaf [Str "see "; Link "a" "" Regular [Str "A"]]; T None (NRef "a" "A" Regular) []]) []].
-Lemma move_dir_inline_not_rebased fx :
+Lemma move_dir_inline_rebased fx :
   rename_core fx o0 tree_scan W7 "k" (Ok (Some "k")) "d/new"
-  = Ok (REdits [OpDelete "k"; OpCreate "d/new"; OpInsert "d/new" ("see [A](a)" +++ LFS +++ LFS +++ "[A](../a)" +++ LFS)]) /\
-  from_rel_link_url "a" (key_parent "d/new") = "d/a".
+  = Ok (REdits [OpDelete "k"; OpCreate "d/new"; OpInsert "d/new" ("see [A](../a)" +++ LFS +++ LFS +++ "[A](../a)" +++ LFS)]) /\
+  from_rel_link_url "../a" (key_parent "d/new") = "a".
 Proof. destruct fx as [[] [] [] []]; split; vm_compute; reflexivity. Qed.
 
 (* the hypotheses of rename_root are satisfiable *)
